@@ -19,6 +19,7 @@ Rule family R8 (bit algebra normal form) on Bits._compile / init / unpack / pack
 The arithmetic of Python ints is trusted.
 """
 import ast
+import re
 
 from .. import Undecided
 from ..expr import canon, lin, or_terms, and_factors, call_name, unparse, negate, conj
@@ -65,6 +66,88 @@ def is_mask_expr(e, w_text, s_text):
     return False
 
 
+def find_run_walk(ctx, comp, paths, rule):
+    """the loop that visits the members of the run backwards from this (last) member.  Three
+    ways of writing it are recognised; each yields the expression F that denotes the member:
+      A  for n, f in reversed(fields[:position + 1]): if not isinstance(f, Bits): break
+      B  start = position; while start > 0 and isinstance(fields[start - 1][1], Bits): start -= 1
+         for n, f in reversed(fields[start:position + 1])
+      C  i = position; while i >= 0 and isinstance(fields[i][1], Bits): ... fields[i] ...; i -= 1
+    a recognised scheme with wrong bounds / stop test is a violation; anything else is undecided"""
+    loops = []
+    for p in paths:
+        for e in p.effects:
+            if e.kind == 'loop' and id(e.node) not in [id(x.node) for x in loops]:
+                loops.append(e)
+
+    def scan_loop(k):
+        for e in loops:
+            if e.sub['phi'] == k:
+                return e
+        return None
+
+    found = []
+    for lp in loops:
+        n = lp.sub['phi']
+        if lp.sub['kind'] == 'for':
+            it = canon(lp.sub['iter'])
+            item = '<item of %d>' % n
+            F = '%s[1]' % item
+            body = lp.sub['body']
+            cont = [b for b in body if b.end[0] == 'fall']
+            if it == 'reversed(fields[:(position + 1)])':
+                brk = [b for b in body if b.end[0] == 'break']
+                if not brk or not any(('not isinstance(%s, Bits)' % F) in gtexts(b) for b in brk):
+                    ctx.violation(rule, comp, 'loop body', 'the walk does not stop at the first field that is not a Bits: bits of an earlier, separate run are merged in', lp.lineno, clause='a')
+                else:
+                    ctx.holds(rule, comp, 'for ... in %s: if not isinstance(f, Bits): break' % it, 'walks backwards from the last member to the first non-Bits field', lp.lineno, clause='a')
+                found.append(dict(lp=lp, F=F, cont=cont))
+                continue
+            m = re.match(r'reversed\(fields\[(\w+)@phi(\d+)out:\(position \+ 1\)\]\)$', it)
+            if m:
+                var, k = m.group(1), int(m.group(2))
+                sc = scan_loop(k)
+                S = '%s@phi%d' % (var, k)
+                ok = sc is not None and sc.sub['kind'] == 'while' and sc.sub['test'] is not None \
+                    and sorted(canon(c) for c in conj(sc.sub['test'])) == sorted(['(-1*%s < 0)' % S, 'isinstance(fields[(%s + -1)][1], Bits)' % S]) \
+                    and sc.sub['entry'].get(var) is not None and canon(sc.sub['entry'][var]) == 'position' \
+                    and all(b.end[0] == 'fall' and lin(b.env.get(var)) == {S: 1, 1: -1} for b in sc.sub['body'])
+                if ok:
+                    ctx.holds(rule, comp, 'start = position; while start > 0 and isinstance(fields[start - 1][1], Bits): start -= 1; for ... in %s' % it.replace('@phi%dout' % k, ''),
+                              'the run is the maximal block of Bits that ends at this member, walked backwards', lp.lineno, clause='a')
+                    found.append(dict(lp=lp, F=F, cont=cont))
+                else:
+                    ctx.undecided(rule, comp, 'for ... in %s' % it, 'cannot see that %s is the first index of the run of Bits ending at position' % var, lp.lineno, clause='a')
+                    return None
+                continue
+            if it.startswith('reversed(fields[') or it.startswith('fields['):
+                ctx.violation(rule, comp, 'for ... in %s' % it, 'the run must be walked backwards from this (last) member: reversed(fields[:position + 1])', lp.lineno, clause='a')
+                found.append(dict(lp=lp, F=F, cont=cont))
+                continue
+        elif lp.sub['test'] is not None:
+            lits = [canon(c) for c in conj(lp.sub['test'])]
+            m = None
+            for t in lits:
+                m = m or re.match(r'isinstance\(fields\[(\w+)@phi%d\]\[1\], Bits\)$' % n, t)
+            if m:
+                var = m.group(1)
+                IDX = '%s@phi%d' % (var, n)
+                ok = sorted(lits) == sorted(['(-1*%s <= 0)' % IDX, 'isinstance(fields[%s][1], Bits)' % IDX]) \
+                    and lp.sub['entry'].get(var) is not None and canon(lp.sub['entry'][var]) == 'position' \
+                    and all(b.end[0] == 'fall' and lin(b.env.get(var)) == {IDX: 1, 1: -1} for b in lp.sub['body'])
+                if ok:
+                    ctx.holds(rule, comp, 'i = position; while i >= 0 and isinstance(fields[i][1], Bits): ...; i -= 1', 'walks backwards from the last member to the first non-Bits field', lp.lineno, clause='a')
+                    found.append(dict(lp=lp, F='fields[%s][1]' % IDX, cont=[b for b in lp.sub['body'] if b.end[0] == 'fall']))
+                else:
+                    ctx.undecided(rule, comp, 'while %s' % canon(lp.sub['test']), 'an index walk over the fields whose start / stop / step the rule cannot confirm', lp.lineno, clause='a')
+                    return None
+    found = [f for f in found if any(e.kind == 'store_attr' and e.name in ('shift', 'mask') for b in f['cont'] for e in b.effects)] or found
+    if len(found) != 1:
+        ctx.undecided(rule, comp, 'Bits._compile', 'expected one recognisable walk over the run of Bits, found %d (of %d loops)' % (len(found), len(loops)), comp.node.lineno, clause='a')
+        return None
+    return found[0]
+
+
 def check_compile(ctx, ci):
     repo = ctx.repo
     comp = ci.methods.get('_compile')
@@ -93,32 +176,12 @@ def check_compile(ctx, ci):
             ctx.violation(rule, comp, name, 'the %s membership test was not found in its expected form (position at the edge or the neighbour is not a Bits)' % name, comp.node.lineno, clause='a')
         else:
             ctx.violation(rule, comp, '%s iff %s' % (name, sorted(got)), 'expected %s' % want, comp.node.lineno, clause='a')
-    # ---- the loop
-    main = [p for p in paths if 'self.iam_last' in gtexts(p) or any(e.kind == 'loop' for e in p.effects)]
-    loops = []
-    for p in paths:
-        for e in p.effects:
-            if e.kind == 'loop' and e.sub['kind'] == 'for' and id(e.node) not in [id(x.node) for x in loops]:
-                loops.append(e)
-    if len(loops) != 1:
-        ctx.undecided(rule, comp, 'Bits._compile', 'expected one loop over the run, found %d' % len(loops), comp.node.lineno, clause='a')
+    # ---- the walk over the run
+    walk = find_run_walk(ctx, comp, paths, rule)
+    if walk is None:
         return
-    lp = loops[0]
-    it = canon(lp.sub['iter'])
-    if it == 'reversed(fields[:(position + 1)])':
-        ctx.holds(rule, comp, 'for ... in %s' % it, 'walks backwards from the last member', lp.lineno, clause='a')
-    else:
-        ctx.violation(rule, comp, 'for ... in %s' % it, 'the run must be walked backwards from this (last) member: reversed(fields[:position + 1])', lp.lineno, clause='a')
-    n = lp.sub['phi']
-    item = '<item of %d>' % n
-    F = '%s[1]' % item
-    body = lp.sub['body']
-    brk = [b for b in body if b.end[0] == 'break']
-    cont = [b for b in body if b.end[0] == 'fall']
-    if not brk or not any(('not isinstance(%s, Bits)' % F) in gtexts(b) for b in brk):
-        ctx.violation(rule, comp, 'loop body', 'the walk does not stop at the first field that is not a Bits: bits of an earlier, separate run are merged in', lp.lineno, clause='a')
-    else:
-        ctx.holds(rule, comp, 'if not isinstance(f, Bits): break', 'the run ends at the first non-Bits field', lp.lineno, clause='a')
+    lp, F, n = walk['lp'], walk['F'], walk['lp'].sub['phi']
+    cont = walk['cont']
     if len(cont) != 1:
         ctx.undecided(rule, comp, 'loop body', 'expected one continuing body path, found %d' % len(cont), lp.lineno, clause='a')
         return
@@ -151,11 +214,9 @@ def check_compile(ctx, ci):
         else:
             ctx.violation(rule, comp, 'f.mask = %s' % canon(mk[-1].value), 'expected ((1 << bit_count) - 1) << shift', mk[-1].lineno, clause='a')
     # initial value 0
-    init0 = None
-    for s in ast.walk(comp.node):
-        if isinstance(s, ast.Assign) and isinstance(s.targets[0], ast.Name) and s.targets[0].id == acc and isinstance(s.value, ast.Constant):
-            init0 = s.value.value
-    if init0 == 0:
+    init0 = lp.sub['entry'].get(acc)
+    init0 = init0.value if isinstance(init0, ast.Constant) else (canon(init0) if init0 is not None else None)
+    if init0 == 0 and init0 is not False:
         ctx.holds(rule, comp, '%s starts at 0' % acc, 'the last member occupies the least significant bits', comp.node.lineno, clause='a')
     else:
         ctx.violation(rule, comp, '%s starts at %r' % (acc, init0), 'the running sum must start at 0', comp.node.lineno, clause='a')
@@ -167,12 +228,12 @@ def check_compile(ctx, ci):
         ctx.violation(rule, comp, 'loop body', 'members do not get the shared Int', lp.lineno, clause='a')
     # ---- (b) byte boundary, (e) shared Int
     rule = 'R8-byte-boundary'
-    ok_paths = [p for p in paths if not p.raises() and any(e.kind == 'loop' for e in p.effects)]
-    bad_paths = [p for p in paths if p.raises() and any(e.kind == 'loop' for e in p.effects)]
+    ok_paths = [p for p in paths if not p.raises() and any(e.kind == 'loop' and e.node is lp.node for e in p.effects)]
+    bad_paths = [p for p in paths if p.raises() and any(e.kind == 'loop' and e.node is lp.node for e in p.effects)]
 
     def out_of(p):
         for e in p.effects:
-            if e.kind == 'loop':
+            if e.kind == 'loop' and e.node is lp.node:
                 return '%s@phi%dout' % (acc, e.sub['phi'])
         return None
 
